@@ -60,6 +60,39 @@ func (w *faultWriter) Write(p []byte) (int, error) {
 	return room, w.firstErr
 }
 
+// richWriter is a faultWriter that also offers the optional methods real
+// destinations have (*os.File, *bufio.Writer, *bytes.Buffer: WriteString;
+// bufio/bytes: WriteByte; *os.File: ReadFrom), each with the same byte budget.
+type richWriter struct{ *faultWriter }
+
+func (w richWriter) WriteString(s string) (int, error) { return w.Write([]byte(s)) }
+
+func (w richWriter) WriteByte(c byte) error {
+	_, err := w.Write([]byte{c})
+	return err
+}
+
+func (w richWriter) ReadFrom(rd io.Reader) (int64, error) {
+	var total int64
+	buf := make([]byte, 512)
+	for {
+		n, rerr := rd.Read(buf)
+		if n > 0 {
+			m, werr := w.Write(buf[:n])
+			total += int64(m)
+			if werr != nil {
+				return total, werr
+			}
+		}
+		if rerr == io.EOF {
+			return total, nil
+		}
+		if rerr != nil {
+			return total, rerr
+		}
+	}
+}
+
 // chunkWriter never fails; it forwards at most c bytes per underlying call and
 // records everything.
 type chunkWriter struct {
@@ -79,7 +112,7 @@ func init() {
 		Level: "fault_enumeration",
 		Rule: "every module of the corpus (atoms, repo testdata, llvm-stress programs in thorough) is written with WriteTo to a writer that fails after exactly k accepted bytes, " +
 			"for every k in [0,len] (all offsets when len<=6000, else 400 PRNG offsets plus boundaries), once with a sentinel error, once with io.ErrShortWrite, and once with a writer whose failing call accepts its whole chunk and returns (len(p), err); the corpus includes a synthetic module with a function body of more than 64 KiB; " +
-			"Failure kinds also include the errors of real destinations at 25 offsets per module (io.ErrClosedPipe, EPIPE bare and in *os.PathError, io.EOF, os.ErrClosed, ENOSPC). First output: a second, never-printed parse of every input, and API-built modules whose numbers are still to be assigned (block addresses used from outside the function, metadata definitions with ID -1 attached to a global, a function and an instruction; never printed, or printed and then edited) are written once to a non-failing writer and to writers failing at every offset: what WriteTo wrote is what String() returns afterwards. " +
+			"Kind stringwriter: the failing writer also has WriteString, WriteByte and ReadFrom (as *os.File, *bufio.Writer, *bytes.Buffer have), all on the same byte budget, at every offset. Failure kinds also include the errors of real destinations at 25 offsets per module (io.ErrClosedPipe, EPIPE bare and in *os.PathError, io.EOF, os.ErrClosed, ENOSPC). First output: a second, never-printed parse of every input, and API-built modules whose numbers are still to be assigned (block addresses used from outside the function, metadata definitions with ID -1 attached to a global, a function and an instruction; never printed, or printed and then edited) are written once to a non-failing writer and to writers failing at every offset: what WriteTo wrote is what String() returns afterwards. " +
 			"a case is (module, k, failure kind); it is non-trivial when 0<k<len, i.e. the failure hits in the middle of the output; distinct = distinct (module digest, k, kind)",
 		Gen:           genC19,
 		MinNontrivial: 1000,
@@ -175,7 +208,11 @@ func c19APIFirstWriteTo(r *fw.Rec) {
 				w := &faultWriter{limit: k}
 				var n int64
 				var werr error
-				if p, msg, _ := fw.Guard(func() { n, werr = m.WriteTo(w) }); p {
+				var dst io.Writer = w
+				if k%2 == 1 {
+					dst = richWriter{w} // every other offset: a writer that also has WriteString, WriteByte, ReadFrom
+				}
+				if p, msg, _ := fw.Guard(func() { n, werr = m.WriteTo(dst) }); p {
 					r.Violatef("writeto-panic/"+id, "", "WriteTo panicked with a writer failing after %d bytes: %s", k, msg)
 					bad = true
 					break
@@ -301,7 +338,7 @@ func runC19(r *fw.Rec, s corpus.Source) {
 		"closed":        &os.PathError{Op: "write", Path: "out.ll", Err: os.ErrClosed},
 		"enospc":        &os.PathError{Op: "write", Path: "out.ll", Err: syscall.ENOSPC},
 	}
-	kinds := []string{"sentinel", "shortwrite", "fullcount", "closedpipe", "epipe", "syscall-epipe", "eof", "closed", "enospc"}
+	kinds := []string{"sentinel", "shortwrite", "fullcount", "stringwriter", "closedpipe", "epipe", "syscall-epipe", "eof", "closed", "enospc"}
 	for _, kind := range kinds {
 		short := kind == "shortwrite"
 		koffs := offs
@@ -317,7 +354,11 @@ func runC19(r *fw.Rec, s corpus.Source) {
 			w := &faultWriter{limit: k, short: short, full: kind == "fullcount", err: osErrs[kind]}
 			var n int64
 			var werr error
-			if p, msg, _ := fw.Guard(func() { n, werr = m.WriteTo(w) }); p {
+			var dst io.Writer = w
+			if kind == "stringwriter" {
+				dst = richWriter{w}
+			}
+			if p, msg, _ := fw.Guard(func() { n, werr = m.WriteTo(dst) }); p {
 				r.Violatef(fmt.Sprintf("writeto-panic/%s/k=%d", s.ID, k), text, "WriteTo panicked with a writer failing after %d bytes: %s", k, msg)
 				return
 			}
@@ -351,7 +392,7 @@ func runC19(r *fw.Rec, s corpus.Source) {
 	}
 	r.NontrivialN("c19/"+dig, nontriv*1)
 	r.Tally("modules", "checked")
-	r.TallyN("offsets", "checked", 3*len(offs)+6*min(len(offs), 25))
+	r.TallyN("offsets", "checked", 4*len(offs)+6*min(len(offs), 25))
 	if L <= 6000 {
 		r.Tally("modules", "all_offsets_enumerated")
 	}
